@@ -187,6 +187,12 @@ class Interp:
         self.max_steps = MAX_STEPS
         self.models = {}              # Obj.id -> model object answering get / set / call / apply for a stand-in object
 
+    def model_of(self, v):
+        """the model standing behind a stand-in object value (sa/protomodel, sa/bytealg), or None"""
+        if isinstance(v, tuple) and v and v[0] == "obj" and self.models and v[1].id in self.models:
+            return self.models[v[1].id]
+        return None
+
     # ------------------------------------------------------------------ atoms
     def ask(self, atom):
         if atom in self.cell:
@@ -277,6 +283,12 @@ class Interp:
     def truth(self, v, text=""):
         v = self.concrete(v)
         k = v[0]
+        if k == "obj" and self.models:
+            m_ = self.model_of(v)
+            if m_ is not None and hasattr(m_, "truth"):
+                r_ = m_.truth(self, v)
+                if r_ is not None:
+                    return r_
         if self.sym is not None and self.sym.is_sym(v):
             t = self.sym.truth(self, v)
             if t is not None:
@@ -298,6 +310,12 @@ class Interp:
 
     def equal(self, a, b, text=""):
         """three cases decided exactly; otherwise a free atom"""
+        if self.models:
+            m_ = self.model_of(a) or self.model_of(b)
+            if m_ is not None and hasattr(m_, "equal"):
+                r_ = m_.equal(self, a, b)
+                if r_ is not None:
+                    return r_
         if a[0] == "atom" and b[0] == "c":
             self.note_const(a[1], b[1])
         if b[0] == "atom" and a[0] == "c":
@@ -1144,6 +1162,12 @@ class Interp:
         return ("ext", n, [])
 
     def binop(self, op, l, r, e=None):
+        if self.models:
+            m_ = self.model_of(l) or self.model_of(r)
+            if m_ is not None and hasattr(m_, "binop"):
+                v = m_.binop(self, op, l, r)
+                if v is not None:
+                    return v
         if self.sym is not None and (self.sym.is_sym(l) or self.sym.is_sym(r) or self.sym.byteish(l) or self.sym.byteish(r)):
             v = self.sym.binop(self, op, l, r)
             if v is not None:
@@ -1230,6 +1254,10 @@ class Interp:
             return ("absent", None) if not has_dyn and not opened else ("unknown", None)
         if not d and not opened:
             return "absent", None
+        if not opened and _closed_key(key) and all((isinstance(x, tuple) and x and x[0] == "dyn" and v[0] == "list" and len(v[1]) == 2 and _closed_key(v[1][0])) or not (isinstance(x, tuple) and x and x[0] == "dyn") for x, v in d.items()):
+            # keys made of constants and object identities (a (key object, b"info") pair): none stored equals this one
+            if key[0] != "c":
+                return "absent", None
         return "unknown", None
 
     def contains(self, container, item, text):
@@ -1275,6 +1303,11 @@ class Interp:
             lo = self.expr(e.slice.lower, env, depth) if e.slice.lower is not None else C_NONE
             hi = self.expr(e.slice.upper, env, depth) if e.slice.upper is not None else C_NONE
             st = self.expr(e.slice.step, env, depth) if e.slice.step is not None else C_NONE
+            m_ = self.model_of(self.force(b)) if self.models else None
+            if m_ is not None and hasattr(m_, "slice"):
+                v_ = m_.slice(self, self.force(b), lo, hi, st)
+                if v_ is not None:
+                    return v_
             if b[0] == "c" and lo[0] == hi[0] == st[0] == "c":
                 try:
                     return ("c", b[1][lo[1]:hi[1]:st[1]])
@@ -1288,6 +1321,12 @@ class Interp:
 
     def getitem(self, b, k, env, depth, e=None):
         b = self.force(b, deref=True)
+        if self.models:
+            m_ = self.model_of(b)
+            if m_ is not None and hasattr(m_, "index"):
+                v_ = m_.index(self, b, k)
+                if v_ is not None:
+                    return v_
         if b[0] == "node":
             return self.node_attr(b[1], k)
         kc = self.concrete(k) if k[0] == "atom" and b[0] in ("dict",) else k
@@ -1301,6 +1340,10 @@ class Interp:
             dk = _dyn_find(b[1], k)
             if dk is not None:
                 return b[1][dk][1][1]
+            if _closed_key(k) and k[0] != "c":
+                st_, _dk = self.dict_lookup(b[1], len(b) > 2 and b[2], k)
+                if st_ == "absent":
+                    raise _Raise(("ext", "KeyError", []), "KeyError: %s" % show(k)[:40])
             return ("fn", "item", [b, k])
         if b[0] == "c" and k[0] == "c":
             try:
@@ -1514,7 +1557,14 @@ class Interp:
                     return ("bound", b, name)
                 kc, ce = self.repo.class_const(o.cls, name)
                 if ce is not None:
-                    return self.class_const_value(kc, o.cls, ce)
+                    # a mutable object created in the class body (a dict used as a cache) is ONE object, shared by every
+                    # instance and every read
+                    if (kc.qname, name) in self.class_attrs:
+                        return self.class_attrs[(kc.qname, name)]
+                    v_ = self.class_const_value(kc, o.cls, ce)
+                    if v_[0] in ("list", "dict") and isinstance(ce, (ast.Dict, ast.List, ast.Set, ast.Call, ast.ListComp, ast.DictComp)):
+                        self.class_attrs[(kc.qname, name)] = v_
+                    return v_
                 # mangled private of another class in the hierarchy
                 for kx in self.repo.mro(o.cls):
                     nm = self._mangle(kx, name)
@@ -1559,6 +1609,8 @@ class Interp:
                         break
             if ce is not None:
                 v = self.class_const_value(kc, c, ce)
+                if v[0] in ("list", "dict") and isinstance(ce, (ast.Dict, ast.List, ast.Set, ast.Call, ast.ListComp, ast.DictComp)):
+                    self.class_attrs[(kc.qname, name)] = v          # one shared mutable object
                 if v == ("fn", "const", []) and isinstance(ce, ast.Call) and self.repo.resolve_expr_class(kc.module, ce.func) is None:
                     # an object of an external class created once in the class body (a queue, a lock): one shared opaque
                     # object whose method calls are recorded
@@ -1624,6 +1676,9 @@ class Interp:
     def class_const_value(self, kc, c, ce):
         a = const_alts(Evaluator(self.repo, kc.module, c, class_scope=kc).ev(ce))
         if a is not None and len(a) == 1:
+            if isinstance(a[0], dict) and isinstance(ce, (ast.Dict, ast.Call)) and all(_hashable(k_) for k_ in a[0]):
+                # a dict written in the class body is an object that methods may fill (a cache), not a constant
+                return ("dict", {k_: ("c", v_) for k_, v_ in a[0].items()})
             return ("c", a[0])
         # tuple of classes (HANDLE tables)
         if isinstance(ce, (ast.Tuple, ast.List)):
@@ -1769,6 +1824,12 @@ class Interp:
         if name in env:
             return None
         a0 = args[0] if args else None
+        if self.models and args:
+            m_ = next((self.model_of(a) for a in args if self.model_of(a) is not None), None)
+            if m_ is not None and hasattr(m_, "builtin"):
+                v_ = m_.builtin(self, name, args, kwargs)
+                if v_ is not None:
+                    return v_
         if name == "isinstance" and len(args) == 2:
             v, c = args
             cs = c[1] if c[0] == "list" else [c]
@@ -2172,6 +2233,14 @@ class Interp:
                 if a[0] == "dict" and not (len(a) > 2 and a[2]) and all(not (isinstance(k_, tuple) and k_ and k_[0] == "dyn") and v_[0] == "c" for k_, v_ in a[1].items()):
                     return ("c", {k_: v_[1] for k_, v_ in a[1].items()})
                 return a
+            if k == "c" and name == "join" and args and self.models:
+                items_ = self.iterate(args[0])
+                if items_ is not None:
+                    m_ = next((self.model_of(x) for x in items_ if self.model_of(x) is not None), None)
+                    if m_ is not None and hasattr(m_, "join"):
+                        v_ = m_.join(self, recv, items_)
+                        if v_ is not None:
+                            return v_
             if k == "c" and name in ("join", "translate", "format", "startswith", "endswith"):
                 args = [_py(a) for a in args]
             if k == "c" and all(a[0] == "c" for a in args) and not kwargs:
@@ -2226,6 +2295,20 @@ class Interp:
             if r is not None:
                 return r
         return ("fn", name, [recv] + list(args) + list(kwargs.values()))
+
+
+def _closed_key(k):
+    """a dictionary key whose equality with another such key is decided by looking at it: constants, object identities,
+    tuples of those"""
+    if not isinstance(k, tuple) or not k:
+        return False
+    if k[0] == "c":
+        return True
+    if k[0] in ("obj", "cls", "node"):
+        return True
+    if k[0] == "list" and not (len(k) > 2 and k[2]):
+        return all(_closed_key(x) for x in k[1])
+    return False
 
 
 def _dyn_find(d, k):
